@@ -397,8 +397,9 @@ func init() {
 type c03Rt struct {
 	plan       c03Plan
 	fired      map[string]int
-	rawPanicOK map[int]bool // sites of raw builtins whose Go panic an enclosing try body recovers
-	bodyOnly   map[int]bool // sites where a budget timeout may be injected
+	rawPanicOK map[int]bool       // sites of raw builtins whose Go panic an enclosing try body recovers
+	bodyOnly   map[int]bool       // sites where a budget timeout may be injected
+	hostCancel context.CancelFunc // C18 only: the fault "host-cancel" ends the context of the whole evaluation
 }
 
 // effective maps the planned fault of a site to what is injected there: a raw types.Func has no panic
@@ -422,6 +423,15 @@ func effectiveFault(f string, raw, rawPanicOK bool) string {
 
 func (rt *c03Rt) probe(ctx context.Context, site int, raw bool) (types.MalType, error) {
 	pf := rt.plan[site]
+	if pf == "host-cancel" {
+		// the embedding program cancels the whole evaluation while this builtin runs; the builtin reports it
+		pf = "err"
+		if rt.hostCancel != nil {
+			rt.fired["host-cancel"]++
+			rt.hostCancel()
+			return nil, errBudget
+		}
+	}
 	if pf == "budget-timeout" && !rt.bodyOnly[site] {
 		pf = "budget-timeout-ineligible"
 	}
